@@ -52,12 +52,30 @@ def flood_schedules():
     return out
 
 
+def bulk_schedules():
+    """more tasks in flight on ONE target stream than the sender's id ring holds (1024) after its head has moved: the ring grows
+    while wrapped (C05's subject, here end to end); then a small ack must be translated correctly (C01/C04 'early')."""
+    out = []
+    for owner, n in ((1, 1100), (2, 2200)):
+        cmds = [{"c": "tasks", "s": 1, "k": 3}, {"c": "send", "t": owner}]
+        cmds += [{"c": "done", "t": owner, "i": 1}] * 3 + [{"c": "ack", "t": owner}]
+        for _ in range(n):
+            cmds += [{"c": "tasks", "s": 1, "k": 1}, {"c": "send", "t": owner}]
+        cmds += [{"c": "done", "t": owner, "i": 1}] * 5 + [{"c": "ack", "t": owner}, {"c": "drain"}]
+        out.append({"id": "bulk-%d-t%d" % (n, owner), "ns": 1, "nt": 2, "route": {"1": [owner]}, "late": [], "cmds": cmds})
+    return out
+
+
+def flood_and_bulk():
+    return flood_schedules() + bulk_schedules()
+
+
 PROFILES = {
-    ("C01", "quick"): dict(design=[("c01.cfg", 300)],
+    ("C01", "quick"): dict(extra=bulk_schedules, design=[("c01.cfg", 300)],
                            gen=[("sim_c01.cfg", "bfs", 1, 2, [], 900), ("sim_c02.cfg", "bfs", 1, 2, [2], 500),
                                 ("sim_c01_t.cfg", ("sim", 60, 60), 2, 2, [], 300),
                                 ("sim_c03.cfg", ("sim", 600, 80), 1, 2, [], 200)]),
-    ("C01", "thorough"): dict(design=[("c01_t1.cfg", 2400), ("c01_t2.cfg", 2400), ("c02b_q.cfg", 1200), ("c02.cfg", 1800)],
+    ("C01", "thorough"): dict(extra=bulk_schedules, design=[("c01_t1.cfg", 2400), ("c01_t2.cfg", 2400), ("c02b_q.cfg", 1200), ("c02.cfg", 1800)],
                               gen=[("sim_c01.cfg", "bfs", 1, 2, [], 16000), ("sim_c02.cfg", "bfs", 1, 2, [2], 8000),
                                    ("sim_c01_t.cfg", ("sim", 500, 60), 2, 2, [], 8000)]),
     ("C02", "quick"): dict(design=[("c02_q.cfg", 300), ("c02b_q.cfg", 600)],
@@ -172,6 +190,10 @@ def generate(c, cfg, mode, ns, nt, late, limit, keep=None):
 def run_schedules(c, scheds, tag):
     """Runs schedules on the real code in parallel shards; returns list of per-run event lists."""
     binpath = c.go_test_build("proxy", HARNESS, name="routing")
+    # binding dimension: task ids are positions in the design; on the wire every other schedule uses sparse ids (k-th task has
+    # id 3k, a batch ending before k carries the exclusive high watermark 3k-1), as Temporal's ids are sparse
+    for k, sc in enumerate(scheds):
+        sc.setdefault("stride", 3 if k % 2 else 1)
     nshard = min(NCPU, max(1, len(scheds) // 3 if len(scheds) < 100 else len(scheds) // 20))
     files = []
     for i in range(nshard):
@@ -224,13 +246,36 @@ def observe(c, runs, tag):
     return out, len(lines)
 
 
+def positions(run):
+    """The recorded run with wire task ids / watermarks of the source side mapped back to positions (identity for stride 1):
+    the design spec (RoutingTrace) speaks in positions."""
+    st = int(run[0].get("stride", 1) or 1)
+    if st == 1:
+        return run
+    up = lambda x: (x + st - 1) // st
+    out = []
+    for e in run:
+        e = dict(e)
+        if e["ev"] == "SrcBatch":
+            e["ids"] = [up(x) for x in e["ids"]]
+            e["high"] = up(e["high"])
+        elif e["ev"] == "SrcAck":
+            e["a"] = up(e["a"])
+        elif e["ev"] == "TgtMsg":
+            e["tasks"] = [dict(t, id=up(t["id"])) for t in e["tasks"]]
+        elif e["ev"] in ("SrcOpen", "SrcGone") and "resume" in e and e["ev"] == "SrcOpen":
+            e["resume"] = up(e["resume"])
+        out.append(e)
+    return out
+
+
 def conform_group(c, runs, idxs, tag, max_iter):
     remaining = list(idxs)
     rejected = []
     for it in range(max_iter):
         lines, owner = [], []
         for ri in remaining:
-            for li, e in enumerate(runs[ri]):
+            for li, e in enumerate(positions(runs[ri])):
                 lines.append(json.dumps(e))
                 owner.append((ri, li))
         if not lines:
@@ -279,8 +324,9 @@ def classify(run, li, clause, s, tid):
             recv_at = k
             break
     owner = None
+    st = int(run[0].get("stride", 1) or 1)
     try:
-        owner = run[0]["route"][str(s)][tid - 1]
+        owner = run[0]["route"][str(s)][(tid + st - 1) // st - 1]
     except Exception:
         pass
     sent = [(k, e) for k, e in enumerate(upto) if e["ev"] == "TgtMsg" and
@@ -405,12 +451,17 @@ def run(c, a):
         c.violation(sig, "%s at %s (source %d id %d) in run %s" % (clause, json.dumps(run_ev[li]), s, tid, run_ev[0].get("id")),
                     {"kind": "routing-trace", "clause": clause, "trace": sched})
     # 5. conformance of the recorded runs with the design spec
-    n_conf, rejected = conform(c, runs_only, "all")
+    conf_runs = [r for r in runs_only if not str(r[0].get("id", "")).startswith("bulk-")]
+    if len(conf_runs) < len(runs_only):
+        c.notes.append("%d constructed bulk runs (> 1024 tasks in flight) are judged by the monitor only: the trace spec is bounded "
+                       "to 400 ids" % (len(runs_only) - len(conf_runs)))
+    n_conf, rejected = conform(c, conf_runs, "all")
+    runs_for_report = conf_runs
     for ri, li in rejected[:5]:
-        r = runs_only[ri]
+        r = runs_for_report[ri]
         log("NON-CONFORMANT run %s: first event the design cannot follow: %s" % (r[0].get("id"), json.dumps(r[li])))
-    c.coverage["nonconformant_runs"] = [{"run": runs_only[ri][0].get("id"), "line": li, "event": runs_only[ri][li],
-                                         "prefix": runs_only[ri][max(0, li - 12):li]} for ri, li in rejected[:6]]
+    c.coverage["nonconformant_runs"] = [{"run": runs_for_report[ri][0].get("id"), "line": li, "event": runs_for_report[ri][li],
+                                         "prefix": runs_for_report[ri][max(0, li - 12):li]} for ri, li in rejected[:6]]
     c.coverage["conformant_runs"] = n_conf if not rejected else max(0, n_conf)
     if other:
         c.notes.append("clauses of other properties observed (not judged here): %s" % other)
@@ -425,4 +476,4 @@ def run(c, a):
         "clauses_judged": sorted(mine),
     })
     samples = [{"schedule": all_runs[0][0][0], "trace": runs_only[0][:40]}] if runs_only else []
-    return c.finish(samples, traces_validated=max(0, min(len(runs_only) - len(bad_runs), n_conf)))
+    return c.finish(samples, traces_validated=max(0, min(len(conf_runs) - len(bad_runs), n_conf)))
